@@ -633,7 +633,13 @@ func (h *History) decodeURI(r *Round, u *URIRec, first bool) {
 						if k == media.H264 {
 							norm := media.NormH26x(media.H264, s.Units)
 							ds.Idx, ds.BytesOK = h.matchSample(tr, norm)
-							ds.Size = len(norm)
+							// payload as the muxer counts it: the NAL units themselves, without the
+							// access unit delimiter added by the MPEG-TS writer
+							for _, n := range s.Units {
+								if len(n) > 0 && n[0]&0x1f != 9 {
+									ds.Size += len(n)
+								}
+							}
 						} else {
 							ds.BytesOK = true
 							for ui, au := range s.Units {
